@@ -270,7 +270,9 @@ H("C10", "wrath_header", "c10_roundtrip", timeout=1200,
 H("C10", "wrath_header", "c10_write", timeout=1200,
   encodes=["ServerEncrypterHalf::write_encrypted_server_header", "ServerCrypto::write_encrypted_server_header"],
   inputs="as c10_roundtrip", asserts="the Write wrapper emits exactly the bytes of encrypt_server_header and leaves the same cipher state", bounds="unwind 258", assumes=[PAD_ASSUME])
-for _h in ["c11_wrath_typed_helpers", "c11_wrath_read_client", "c11_wrath_read_server", "c11_wrath_write_client", "c11_wrath_write_server"]:
+for _h in ["c11_wrath_client_header_enc", "c11_wrath_client_header_dec", "c11_wrath_server_header_enc", "c11_wrath_server_header_dec",
+           "c11_wrath_read_client", "c11_wrath_read_server", "c11_wrath_write_client", "c11_wrath_write_server",
+           "c11_wrath_read_client_facade", "c11_wrath_read_server_facade", "c11_wrath_write_client_facade", "c11_wrath_write_server_facade"]:
     H("C11", "wrath_header", _h, timeout=1800,
       encodes=["wrath_header::{ClientCrypto,ServerCrypto,ClientEncrypterHalf,ServerEncrypterHalf,ClientDecrypterHalf,ServerDecrypterHalf}::* header entry points"],
       inputs="arbitrary cipher states; arbitrary size/opcode or wire bytes; nondeterministic reader/writer",
@@ -518,7 +520,8 @@ _C14 = [
  ("wrath_header", "c06_wrath_server_decision", ["cap128", "q8"], "wrath into_server_header_crypto"),
  ("vanilla_header", "c11_typed_helpers", [], "vanilla header decrypt entry points from arbitrary state on arbitrary bytes"),
  ("tbc_header", "c11_tbc_typed_helpers", [], "tbc header decrypt entry points"),
- ("wrath_header", "c11_wrath_typed_helpers", [], "wrath header decrypt entry points incl. both layouts"),
+ ("wrath_header", "c11_wrath_server_header_dec", [], "wrath client: server-header decrypt entry points incl. both layouts, arbitrary bytes"),
+ ("wrath_header", "c11_wrath_client_header_dec", [], "wrath server: client-header decrypt entry points, arbitrary bytes"),
  ("wrath_header", "c14_wrath_any_order", [], "wrath client: attempt / one-more-byte / decrypt in any order from an arbitrary state"),
 ]
 for _m, _n, _of, _what in _C14:
